@@ -10,6 +10,7 @@ pub mod c13;
 pub mod c14;
 pub mod c16;
 pub mod c17;
+pub mod c18;
 
 pub type Extra = HashMap<String, String>;
 
@@ -28,6 +29,7 @@ pub fn registry() -> Vec<Check> {
         Check { id: "C13", run: c13::run, replay: c13::replay, worker: None },
         Check { id: "C14", run: c14::run, replay: c14::replay, worker: None },
         Check { id: "C16", run: c16::run, replay: c16::replay, worker: None },
+        Check { id: "C18", run: c18::run, replay: c18::replay, worker: None },
         Check { id: "C17", run: c17::run, replay: c17::replay, worker: Some(c17::worker) },
     ]
 }
